@@ -66,6 +66,7 @@ type Solver struct {
 	log       strings.Builder // declarations and definitions (for stand-alone dumps)
 	Stats     QueryStats
 	lastDump  string
+	stack     []*Term // assertions currently on the solver's stack, one push level each
 	pending   strings.Builder
 }
 
@@ -106,6 +107,8 @@ func (s *Solver) start() error {
 	s.axiomsN = 0
 	s.log.Reset()
 	s.pending.Reset()
+	s.stack = nil
+	s.emit("(set-option :global-declarations true)")
 	if s.kind == SolverCVC5 {
 		s.emit("(set-logic ALL)")
 	}
@@ -247,55 +250,115 @@ func (s *Solver) readSexp() (string, error) {
 // Check decides satisfiability of the conjunction of asserts (plus axioms).
 // Returns "sat", "unsat" or "unknown"; with wantModel and sat, values for all declared variables.
 func (s *Solver) Check(ctx *Ctx, asserts []*Term, wantModel bool) (string, map[string]uint64) {
+	r, m, _ := s.CheckEval(ctx, asserts, wantModel, nil)
+	return r, m
+}
+
+// CheckEval is Check plus evaluation of the given terms in the model (when sat).
+// The solver's assertion stack is kept between calls: only the suffix that differs from the
+// previous query is popped / pushed (the path condition prefix stays asserted).
+func (s *Solver) CheckEval(ctx *Ctx, asserts []*Term, wantModel bool, evals []*Term) (string, map[string]uint64, []uint64) {
 	t0 := time.Now()
-	defer func() { s.Stats.TimeBy[s.kind.String()] += time.Since(t0).Seconds() }()
+	defer func() {
+		s.Stats.TimeBy[s.kind.String()] += time.Since(t0).Seconds()
+		if traceQueries {
+			fmt.Fprintf(os.Stderr, "T %.1fms\n", float64(time.Since(t0).Microseconds())/1000)
+		}
+	}()
+	var as []*Term
 	for _, a := range asserts {
 		if a.IsFalse() {
 			s.Stats.Unsat++
-			return "unsat", nil
+			return "unsat", nil, nil
+		}
+		if !a.IsTrue() {
+			as = append(as, a)
 		}
 	}
-	s.syncAxioms(ctx)
-	for _, a := range asserts {
+	if s.axiomsN < len(ctx.Axioms) {
+		// axioms live at the base level
+		s.popTo(0)
+		s.syncAxioms(ctx)
+	}
+	for _, a := range as {
 		s.define(ctx, a)
 	}
-	s.flush()
-	var q strings.Builder
-	q.WriteString("(push 1)\n")
-	for _, a := range asserts {
-		if a.IsTrue() {
-			continue
-		}
-		fmt.Fprintf(&q, "(assert %s)\n", ref(a))
+	for _, e := range evals {
+		s.define(ctx, e)
 	}
-	q.WriteString("(check-sat)\n")
-	s.lastDump = q.String()
-	io.WriteString(s.in, q.String())
+	lcp := 0
+	for lcp < len(as) && lcp < len(s.stack) && as[lcp] == s.stack[lcp] {
+		lcp++
+	}
+	s.popTo(lcp)
+	for _, a := range as[lcp:] {
+		fmt.Fprintf(&s.pending, "(push 1)\n(assert %s)\n", ref(a))
+		s.stack = append(s.stack, a)
+	}
+	s.pending.WriteString("(check-sat)\n")
+	plen := s.pending.Len()
+	tq := time.Now()
+	io.WriteString(s.in, s.pending.String())
+	s.pending.Reset()
 	res, err := s.readLine()
+	if traceQueries {
+		fmt.Fprintf(os.Stderr, "Q %s %.1fms sent=%dB stack=%d new=%d\n", res, float64(time.Since(tq).Microseconds())/1000, plen, len(s.stack), len(as)-lcp)
+	}
 	for err == nil && (res == "" || strings.HasPrefix(res, ";")) {
 		res, err = s.readLine()
 	}
 	if err != nil || strings.HasPrefix(res, "(error") || (res != "sat" && res != "unsat" && res != "unknown" && !strings.HasPrefix(res, "timeout")) {
 		s.Stats.Errors++
 		fmt.Fprintf(os.Stderr, "solver error: %q %v\n", res, err)
-		txt := s.Dump(ctx, asserts, wantModel)
+		txt := s.Dump(ctx, as, wantModel, evals)
 		s.restartAfterError(ctx)
-		return s.fallbackTxt(ctx, txt, wantModel)
+		return s.fallbackTxt(ctx, txt, wantModel, evals)
 	}
-	var model map[string]uint64
-	if res == "sat" && wantModel {
-		model = s.getModel(ctx)
+	if d := os.Getenv("GOSMT_DUMPEVAL"); d != "" && len(evals) > 0 && res == "sat" {
+		os.WriteFile(d, []byte(s.Dump(ctx, as, false, evals)), 0o644)
 	}
-	io.WriteString(s.in, "(pop 1)\n")
 	switch res {
 	case "sat":
 		s.Stats.Sat++
-		return res, model
+		var vals []uint64
+		if len(evals) > 0 {
+			var names []string
+			for _, e := range evals {
+				names = append(names, ref(e))
+			}
+			io.WriteString(s.in, "(get-value ("+strings.Join(names, " ")+"))\n")
+			txt, _ := s.readSexp()
+			m := map[string]uint64{}
+			parseModel(txt, m)
+			for i, e := range evals {
+				if e.IsConst() {
+					vals = append(vals, e.Val)
+					continue
+				}
+				v, ok := m[names[i]]
+				if !ok {
+					return "unknown", nil, nil
+				}
+				vals = append(vals, v)
+			}
+		}
+		var model map[string]uint64
+		if wantModel {
+			model = s.getModel(ctx)
+		}
+		return res, model, vals
 	case "unsat":
 		s.Stats.Unsat++
-		return res, nil
+		return res, nil, nil
 	}
-	return s.fallback(ctx, asserts, wantModel, res)
+	return s.fallbackTxt(ctx, s.Dump(ctx, as, wantModel, evals), wantModel, evals)
+}
+
+func (s *Solver) popTo(n int) {
+	if d := len(s.stack) - n; d > 0 {
+		fmt.Fprintf(&s.pending, "(pop %d)\n", d)
+		s.stack = s.stack[:n]
+	}
 }
 
 func (s *Solver) restartAfterError(ctx *Ctx) {
@@ -306,6 +369,10 @@ func (s *Solver) restartAfterError(ctx *Ctx) {
 }
 
 func (s *Solver) getModel(ctx *Ctx) map[string]uint64 {
+	if traceQueries {
+		tq := time.Now()
+		defer func() { fmt.Fprintf(os.Stderr, "M %.1fms\n", float64(time.Since(tq).Microseconds())/1000) }()
+	}
 	model := map[string]uint64{}
 	var names []string
 	for _, v := range ctx.Vars {
@@ -392,7 +459,7 @@ func tokenize(s string) []string {
 }
 
 // Dump writes a stand-alone SMT-LIB file for the given assertion set.
-func (s *Solver) Dump(ctx *Ctx, asserts []*Term, withModel bool) string {
+func (s *Solver) Dump(ctx *Ctx, asserts []*Term, withModel bool, evals []*Term) string {
 	var sb strings.Builder
 	if s.kind != SolverCVC5 {
 		sb.WriteString("(set-logic ALL)\n")
@@ -418,31 +485,31 @@ func (s *Solver) Dump(ctx *Ctx, asserts []*Term, withModel bool) string {
 			sb.WriteString("(get-value (" + strings.Join(names, " ") + "))\n")
 		}
 	}
+	if len(evals) > 0 {
+		var names []string
+		for _, e := range evals {
+			names = append(names, ref(e))
+		}
+		sb.WriteString("(get-value (" + strings.Join(names, " ") + "))\n")
+	}
 	return sb.String()
 }
 
 var fallbackTimeoutS = 60
 var disableFallback = false
+var traceQueries = os.Getenv("GOSMT_TRACE") != ""
 
-// fallback runs the other solvers one-shot on a stand-alone dump.
-func (s *Solver) fallback(ctx *Ctx, asserts []*Term, wantModel bool, why string) (string, map[string]uint64) {
+// fallbackTxt runs the other solvers one-shot on a stand-alone dump.
+func (s *Solver) fallbackTxt(ctx *Ctx, txt string, wantModel bool, evals []*Term) (string, map[string]uint64, []uint64) {
 	if disableFallback {
 		s.Stats.Unknown++
-		return "unknown", nil
-	}
-	return s.fallbackTxt(ctx, s.Dump(ctx, asserts, wantModel), wantModel)
-}
-
-func (s *Solver) fallbackTxt(ctx *Ctx, txt string, wantModel bool) (string, map[string]uint64) {
-	if disableFallback {
-		s.Stats.Unknown++
-		return "unknown", nil
+		return "unknown", nil, nil
 	}
 	s.Stats.Fallback++
 	f, err := os.CreateTemp("", "gosmt-q-*.smt2")
 	if err != nil {
 		s.Stats.Unknown++
-		return "unknown", nil
+		return "unknown", nil, nil
 	}
 	defer os.Remove(f.Name())
 	f.WriteString(txt)
@@ -460,9 +527,7 @@ func (s *Solver) fallbackTxt(ctx *Ctx, txt string, wantModel bool) (string, map[
 	if s.kind != SolverZ3New {
 		alts = append(alts, alt{"z3-new-5.1", []string{"z3-new", "-T:" + strconv.Itoa(fallbackTimeoutS), f.Name()}})
 	}
-	if s.kind != SolverZ3 {
-		alts = append(alts, alt{"z3-4.8.12", []string{"z3", "-T:" + strconv.Itoa(fallbackTimeoutS), f.Name()}})
-	}
+	alts = append(alts, alt{"z3-4.8.12(one-shot)", []string{"z3", "-T:" + strconv.Itoa(fallbackTimeoutS), f.Name()}})
 	for _, a := range alts {
 		t0 := time.Now()
 		out, _ := exec.Command(a.args[0], a.args[1:]...).CombinedOutput()
@@ -475,89 +540,28 @@ func (s *Solver) fallbackTxt(ctx *Ctx, txt string, wantModel bool) (string, map[
 		switch first {
 		case "unsat":
 			s.Stats.Unsat++
-			return "unsat", nil
+			return "unsat", nil, nil
 		case "sat":
 			s.Stats.Sat++
 			model := map[string]uint64{}
-			if wantModel {
-				idx := strings.Index(o, "\n")
-				parseModel(o[idx+1:], model)
+			idx := strings.Index(o, "\n")
+			parseModel(o[idx+1:], model)
+			var vals []uint64
+			for _, e := range evals {
+				if e.IsConst() {
+					vals = append(vals, e.Val)
+					continue
+				}
+				v, ok := model[ref(e)]
+				if !ok {
+					return "unknown", nil, nil
+				}
+				vals = append(vals, v)
 			}
-			return "sat", model
+			return "sat", model, vals
 		}
 	}
 	s.Stats.Unknown++
-	return "unknown", nil
+	return "unknown", nil, nil
 }
 
-// CheckEval is Check plus evaluation of the given terms in the model (when sat).
-func (s *Solver) CheckEval(ctx *Ctx, asserts []*Term, wantModel bool, evals []*Term) (string, map[string]uint64, []uint64) {
-	t0 := time.Now()
-	defer func() { s.Stats.TimeBy[s.kind.String()] += time.Since(t0).Seconds() }()
-	s.syncAxioms(ctx)
-	for _, a := range asserts {
-		s.define(ctx, a)
-	}
-	for _, e := range evals {
-		s.define(ctx, e)
-	}
-	s.flush()
-	var q strings.Builder
-	q.WriteString("(push 1)\n")
-	for _, a := range asserts {
-		if a.IsTrue() {
-			continue
-		}
-		fmt.Fprintf(&q, "(assert %s)\n", ref(a))
-	}
-	q.WriteString("(check-sat)\n")
-	io.WriteString(s.in, q.String())
-	res, err := s.readLine()
-	if err != nil || (res != "sat" && res != "unsat") {
-		if err != nil || strings.HasPrefix(res, "(error") {
-			s.Stats.Errors++
-			s.restartAfterError(ctx)
-		} else {
-			io.WriteString(s.in, "(pop 1)\n")
-		}
-		s.Stats.Unknown++
-		return "unknown", nil, nil
-	}
-	if res == "unsat" {
-		io.WriteString(s.in, "(pop 1)\n")
-		s.Stats.Unsat++
-		return res, nil, nil
-	}
-	s.Stats.Sat++
-	var names []string
-	for _, e := range evals {
-		names = append(names, ref(e))
-	}
-	io.WriteString(s.in, "(get-value ("+strings.Join(names, " ")+"))\n")
-	txt, _ := s.readSexp()
-	toks := tokenize(txt)
-	// values appear as the last token(s) of each pair; parse sequentially
-	vals := make([]uint64, 0, len(evals))
-	m := map[string]uint64{}
-	// rename pairs: ((t12 #x..) (t13 #b..))
-	parseModel(txt, m)
-	_ = toks
-	for i, e := range evals {
-		if e.IsConst() {
-			vals = append(vals, e.Val)
-			continue
-		}
-		v, ok := m[names[i]]
-		if !ok {
-			io.WriteString(s.in, "(pop 1)\n")
-			return "unknown", nil, nil
-		}
-		vals = append(vals, v)
-	}
-	var model map[string]uint64
-	if wantModel {
-		model = s.getModel(ctx)
-	}
-	io.WriteString(s.in, "(pop 1)\n")
-	return res, model, vals
-}
